@@ -5,7 +5,7 @@ import importlib
 
 ALL = ["C%02d" % i for i in range(1, 21)]
 
-CLAIMED_IDS = ["C01", "C02", "C03", "C04", "C06", "C07", "C08", "C10", "C11", "C13", "C14", "C15", "C16", "C18", "C19", "C20"]
+CLAIMED_IDS = ["C%02d" % i for i in range(1, 21)]
 
 NOT_YET = ("no Lean model/correspondence built for this property yet in this session (planned in DESIGN.md "
            "section 4); not claimed rather than claimed with another technique")
